@@ -60,6 +60,8 @@ type Opts struct {
 	Procs                int // decoder count of the run (column toggling is biased to this period)
 	PlainNodes           bool
 	AlwaysHeader         bool
+	HeaderlessOneIn      int // when AlwaysHeader is false: 1 file in N starts with a data block (default 8)
+	BigBlockOneIn        int // >0: 1 file in N has one block with a dense group of 8001..9500 nodes (more than the usual 8000 per block)
 	MinElems             int // per group (tail blocks for C07 want >= 1)
 }
 
@@ -178,7 +180,10 @@ func Gen(t *kit.Tape, o Opts) *File {
 		o.Procs = 1
 	}
 	// header
-	if o.AlwaysHeader || !t.Chance(1, 8) {
+	if o.HeaderlessOneIn <= 0 {
+		o.HeaderlessOneIn = 8
+	}
+	if o.AlwaysHeader || !t.Chance(1, o.HeaderlessOneIn) {
 		f.Header.Present = true
 		h := &W{}
 		if t.Bool() {
@@ -235,13 +240,17 @@ func Gen(t *kit.Tape, o Opts) *File {
 	nb := t.Range(o.MinBlocks, o.MaxBlocks)
 	var id int64
 	shapes := make([]shape, nb)
+	bigAt := -1
+	if o.BigBlockOneIn > 0 && nb > 0 && t.Chance(1, o.BigBlockOneIn) {
+		bigAt = t.Draw(nb)
+	}
 	for b := 0; b < nb; b++ {
 		sh := drawShape(t)
 		if b >= o.Procs && t.Bool() {
 			sh = shapes[b-o.Procs].inverse()
 		}
 		shapes[b] = sh
-		bm := genBlock(t, o, sh, &id)
+		bm := genBlock(t, o, sh, &id, b == bigAt)
 		bm.Offset += len(f.Data)
 		bm.HdrEnd += len(f.Data)
 		f.Data = append(f.Data, bm.bytes...)
@@ -256,7 +265,7 @@ type genned struct {
 	bytes []byte
 }
 
-func genBlock(t *kit.Tape, o Opts, sh shape, nextID *int64) genned {
+func genBlock(t *kit.Tape, o Opts, sh shape, nextID *int64, big bool) genned {
 	gran := optI64(t, 1, 1000, 7, 100)
 	dgran := optI64(t, 1, 60000, 1000)
 	latOff := optI64(t, 123456789, -5000, 0)
@@ -272,7 +281,7 @@ func genBlock(t *kit.Tape, o Opts, sh shape, nextID *int64) genned {
 	sig := fmt.Sprintf("g%v%v%v%v z%v", gran != nil, dgran != nil, latOff != nil, lonOff != nil, useZlib)
 	var groups [][]byte
 	ng := t.Range(0, o.MaxGroups)
-	if o.MinElems > 0 && ng == 0 {
+	if (o.MinElems > 0 || big) && ng == 0 {
 		ng = 1
 	}
 	for gi := 0; gi < ng; gi++ {
@@ -282,6 +291,12 @@ func genBlock(t *kit.Tape, o Opts, sh shape, nextID *int64) genned {
 		}
 		kind := t.Draw(kinds)
 		n := t.Range(o.MinElems, o.MaxElems)
+		sh := sh
+		if big && gi == 0 {
+			// one dense group with more nodes than the customary 8000 per block
+			kind, n, sh = 0, 8001+t.Draw(1500), shape{}
+			sig += " BIG"
+		}
 		switch kind {
 		case 0: // dense nodes
 			anyTags := sh.kv && t.Bool()
